@@ -389,26 +389,62 @@ from symplyphysics.core.vectors.vectors import QuantityVector
 nl, nr, lvals, rvals = {nl!r}, {nr!r}, {lvals!r}, {rvals!r}
 L = units.length
 lf = [float(Fraction(v)) for v in lvals]; rf = [float(Fraction(v)) for v in rvals]
-lv = QuantityVector([Quantity(v, dimension=L) for v in lf], dimension=L)
-rv = QuantityVector([Quantity(v, dimension=L) for v in rf], dimension=L)
-try:
-    assert_equal_vectors(lv, rv); got = "pass"
-except AssertionError: got = "fail"
-except ValueError as e: got = "valueerror"
+import sympy as sp
+def run(exact):
+    mk = (lambda v: Quantity(sp.Rational(v) * units.meter)) if exact else (lambda v: Quantity(float(Fraction(v)), dimension=L))
+    lv = QuantityVector([mk(v) for v in lvals], dimension=L)
+    rv = QuantityVector([mk(v) for v in rvals], dimension=L)
+    try:
+        assert_equal_vectors(lv, rv); return "pass"
+    except AssertionError: return "fail"
+    except ValueError as e: return "valueerror"
+got = run(False); got_exact = run(True)
 # componentwise verdict at the default relative tolerance 0.001, with a margin around the boundary
 def comp(a, b):
     d, m = abs(a - b), 1e-3 * max(abs(a), abs(b))
     return True if d <= m * (1 - 1e-6) else False if d > m * (1 + 1e-6) else None
 oks = [comp(a, b) for a, b in zip(lf, rf)]
 want = "valueerror" if nl != nr else (None if None in oks and False not in oks else "pass" if all(oks) else "fail")
-print(lf, rf, oks, "->", got, "want", want)
-if want is not None and got != want:
+print(lf, rf, oks, "->", got, "(float magnitudes)", got_exact, "(exact magnitudes); want", want)
+if want is not None and (got != want or got_exact != want):
     print("REPRODUCED"); sys.exit(1)
 '''
 
 
+def vectors_concrete(ctx):
+    """distinguished magnitudes: components that are EXACTLY zero (a structural `== 0` in the code never fires on a symbolic magnitude),
+    huge against tiny, equal vectors; verdict by the default relative tolerance 0.001 per component"""
+    from symplyphysics.core import approx as AP
+    from symplyphysics.core.vectors.vectors import QuantityVector
+    from symplyphysics import Quantity as RealQuantity
+    from sympy.physics import units
+    L = units.length
+    cases = [(["0", "0", "5"], ["7", "8", "5"]), (["7", "8", "5"], ["0", "0", "5"]), (["0", "0", "0"], ["1", "2", "3"]), (["1", "2", "3"], ["0", "0", "0"]),
+             (["3", "4", "0"], ["3", "4", "1000000"]), (["3", "4", "1000000"], ["3", "4", "0"]), (["0", "0", "5"], ["0", "0", "5"]), (["0", "0", "0"], ["0", "0", "0"]),
+             (["0", "2"], ["1/1000000", "2"]), (["1", "2", "3"], ["1", "2", "3"]), (["1", "0"], ["1", "0"]), (["1000", "1"], ["1000", "3/2"]), (["1", "1000"], ["3/2", "1000"])]
+    for lvals, rvals in cases:
+        lf, rf = [float(Fraction(v)) for v in lvals], [float(Fraction(v)) for v in rvals]
+        want = "pass" if all(abs(a - b) <= 1e-3 * max(abs(a), abs(b)) for a, b in zip(lf, rf)) else "fail"
+        # magnitudes as doubles and as exact numbers (an exact 0 and a float 0.0 are different objects for SymPy >= 1.13)
+        for how, mk in (("float", lambda v: RealQuantity(float(Fraction(v)), dimension=L)), ("exact", lambda v: RealQuantity(sp.Rational(v) * units.meter))):
+            try:
+                AP.assert_equal_vectors(QuantityVector([mk(v) for v in lvals]), QuantityVector([mk(v) for v in rvals]))
+                got = "pass"
+            except AssertionError:
+                got = "fail"
+            except Exception as e:
+                got = "raised " + type(e).__name__
+            nm = f"vectors-concrete:{how}:{lvals}-vs-{rvals}"
+            if got == want:
+                ctx.ob(nm, "discharged", nontrivial=False)
+            else:
+                ctx.violation("C08:vectors:concrete-components", f"assert_equal_vectors({lvals} m, {rvals} m) [{how} magnitudes]: {got}, expected {want} (component-wise, relative tolerance 0.001)",
+                              REPLAY_VEC.format(nl=len(lvals), nr=len(rvals), lvals=lvals, rvals=rvals))
+
+
 def vectors(ctx):
     """(vi) vectors: lengths 0..3 x 0..3, each component pair symbolic"""
+    vectors_concrete(ctx)
     from symplyphysics.core import approx as AP
     from symplyphysics.core.vectors.vectors import QuantityVector
     from symplyphysics.core.errors import UnitsError
